@@ -50,6 +50,15 @@ def run(tier, seed):
     trees = [scopes.flatten(scopes.random_tree(rng, depth=rng.choice([2, 3, 4])))["nodes"] for _ in range(60 if tier == "quick" else 1500)]
     bobs = common.run_harness([schemaev.build_cmd(n, i) for i, n in enumerate(vecs + trees)], per_cmd_timeout=30)
     ntr += schemaev.validate_builds(rep, [(n, o, {}) for n, o in zip(vecs + trees, bobs)], ["fp"], "built graph: fingerprint")
+    # ---- edited graphs: a fingerprint taken BEFORE an edit through nodes_mut() must not be the one reported after it
+    ecmds, emeta = [], []
+    for c in cases[:: (4 if tier == "quick" else 1)]:
+        for edit in ("rename_field", "add_symbol", "swap_fields", "touch"):
+            ecmds.append(dict(schemaev.build_cmd([], len(ecmds)), text=c[2], edit=edit, fingerprint_first=True))
+            emeta.append((c, edit))
+    eobs = common.run_harness(ecmds, per_cmd_timeout=30)
+    eitems = [(o.get("nodes_after", []), o, {"text": c[2], "edit": edit, "fingerprint_first": True}) for (c, edit), o in zip(emeta, eobs)]
+    ntr += schemaev.validate_builds(rep, eitems, ["fp"], "fingerprint after an edit (one was taken before it)", fam="edited")
     # binding
     for it in items:
         if it[2]["res"] == "ok":
